@@ -1243,6 +1243,65 @@ func (m *modInfo) bitflips(r *rand.Rand, nexec int) {
 	}
 }
 
+// ---- concurrent writers inside ONE process (goroutines / runtimes / caches on one directory): everything that
+// is "unique per process" (pid, start time, a counter) is shared between them
+func (m *modInfo) concurrentInProcess(round int) {
+	dir := freshDir("concip-" + m.Name)
+	defer os.RemoveAll(dir)
+	cache := filepath.Join(dir, "cache")
+	const W = 6
+	start := make(chan struct{})
+	res := make([]RunResult, W)
+	var wg sync.WaitGroup
+	for i := 0; i < W; i++ {
+		wg.Add(1)
+		go func(i int) {
+			defer wg.Done()
+			<-start
+			res[i] = runOnce(cache, m.Bytes, m.Kind, "compiler", true)
+		}(i)
+	}
+	stop := make(chan struct{})
+	var partial []int
+	var rwg sync.WaitGroup
+	rwg.Add(1)
+	go func() {
+		defer rwg.Done()
+		fp := filepath.Join(cache, m.VDir, m.EntryName)
+		for {
+			select {
+			case <-stop:
+				return
+			default:
+			}
+			if b, err := os.ReadFile(fp); err == nil && !bytes.Equal(b, m.Entry) {
+				partial = append(partial, len(b))
+			}
+		}
+	}()
+	close(start)
+	wg.Wait()
+	close(stop)
+	rwg.Wait()
+	input := map[string]any{"module": m.Name, "writers": W, "in_one_process": true, "round": round}
+	rep.Case(fmt.Sprintf("concurrent-in-process:%s:round=%d", m.Name, round))
+	o := observe(cache, m.Entry)
+	if len(partial) > 0 {
+		violate("impl-violation", "C13:reader-saw-incomplete-entry-during-concurrent-add", "a reader opened the final name while 6 goroutines of one process were adding it and saw something else than the complete entry", input, "complete entry", partial)
+	}
+	if o.Final != "full" {
+		violate("impl-violation", "C13:concurrent-writers-final-not-complete", "after 6 concurrent in-process writers of one key the final name does not hold a complete entry", input, "final=full", o.String())
+	}
+	if len(o.BadNames) > 0 || o.TempBad || len(o.Temps) > 0 {
+		violate("impl-violation", "C13:concurrent-writers-leftover", "files left by concurrent in-process writers, none of which died", input, "no temp files", map[string]any{"obs": o.String(), "bad": o.BadNames})
+	}
+	for i := range res {
+		if res[i].CompileErr != "" || res[i].Panic != "" {
+			violate("impl-violation", "C13:concurrent-writer-failed", "CompileModule failed in one of 6 goroutines compiling the same module with a shared cache directory", input, "no error", res[i])
+		}
+	}
+}
+
 // ---- concurrent writers
 func (m *modInfo) concurrent(round int, r *rand.Rand) {
 	dir := freshDir("conc-" + m.Name)
@@ -1537,6 +1596,7 @@ func main() {
 		}
 		if okMods[m] {
 			m.concurrent(i, r)
+			m.concurrentInProcess(i)
 		}
 	}
 	rep.Exhaustive = false
